@@ -181,10 +181,50 @@ func c08MakeUse(r *gen.Rand, spec gen.MsgSpec) c08Use {
 
 // c08FollowUp makes a use that depends on what the message currently holds: the same datagram arriving again after the
 // application edited the decoded fields, or a re-encode after editing the attribute list in the struct.
-func c08FollowUp(r *gen.Rand, m *stun.Message) c08Use {
+// The second result (optional) compares the message with an absolute expectation where the fresh twin would share the fault.
+func c08FollowUp(r *gen.Rand, m *stun.Message) (c08Use, func(m *stun.Message) string) {
 	snapshot := make(stun.Attributes, len(m.Attributes))
 	for i, a := range m.Attributes {
 		snapshot[i] = stun.RawAttribute{Type: a.Type, Length: a.Length, Value: append([]byte(nil), a.Value...)}
+	}
+	if r.Chance(1, 3) {
+		// the next input lives in the message's own buffer: the message carried in the DATA attribute it has just
+		// decoded (TURN), or bytes of its own Raw behind a prefix
+		inner := r.WireDirty(r.Spec(5, 60))
+		outer := ref.Encode(0x0017, r.TID(), []ref.Attr{{Type: 0x8022, Value: r.Bytes(r.Intn(9))}, {Type: 0x0013, Value: inner}, {Type: 0x802b, Value: r.Bytes(8)}})
+		want := new(stun.Message)
+		if err := stun.Decode(append([]byte(nil), inner...), want); err != nil {
+			fatalHarness("C08 inner message: " + err.Error())
+		}
+		wantView := viewOf(want)
+		how := r.Intn(3)
+
+		return c08Use{"Decode(outer);decode own DATA value", func(x *stun.Message) error {
+			if err := stun.Decode(outer, x); err != nil {
+				return err
+			}
+			v, err := x.Get(stun.AttrData)
+			if err != nil {
+				return err
+			}
+			switch how {
+			case 0:
+				return stun.Decode(v, x)
+			case 1:
+				_, err = x.Write(v)
+
+				return err
+			default:
+				return x.UnmarshalBinary(v)
+			}
+		}, func() {}}, func(x *stun.Message) string {
+			got := viewOf(x)
+			if d := got.diff(wantView); d != "" {
+				return "the message decoded out of its own DATA attribute differs from a decode of the same bytes held elsewhere: " + d
+			}
+
+			return ""
+		}
 	}
 	if r.Bool() {
 		// a retransmission: byte for byte what m.Raw holds, decoded into m after its fields were edited
@@ -204,7 +244,7 @@ func c08FollowUp(r *gen.Rand, m *stun.Message) c08Use {
 			for i := range data {
 				data[i] ^= 0x5A
 			}
-		}}
+		}}, nil
 	}
 	retag, nt := -1, stun.AttrType(r.AttrType())
 	if len(snapshot) > 0 && r.Chance(2, 3) {
@@ -224,7 +264,7 @@ func c08FollowUp(r *gen.Rand, m *stun.Message) c08Use {
 		x.Encode()
 
 		return nil
-	}, func() {}}
+	}, func() {}}, nil
 }
 
 func hasType(s gen.MsgSpec, t uint16) bool {
@@ -270,8 +310,9 @@ func c08(c *core.Ctx) {
 			spec := c08Spec(r, prev)
 			prev = &spec
 			use := c08MakeUse(r, spec)
+			var absCheck func(m *stun.Message) string
 			if k > 0 && lastOK && r.Chance(1, 5) {
-				use = c08FollowUp(r, m)
+				use, absCheck = c08FollowUp(r, m)
 			}
 			history = append(history, use.name)
 			fresh := &stun.Message{Type: m.Type, TransactionID: m.TransactionID}
@@ -300,6 +341,13 @@ func c08(c *core.Ctx) {
 				return
 			}
 			lastOK = errM == nil
+			if errM == nil && absCheck != nil {
+				if msg := absCheck(m); msg != "" {
+					c.Violate("reuse-differs", "reuse-differs:"+opName(use.name), detail(msg))
+
+					return
+				}
+			}
 			if errM != nil {
 				c.Count("failed_uses", 1)
 
@@ -311,6 +359,23 @@ func c08(c *core.Ctx) {
 				c.Violate("reuse-differs", "reuse-differs:"+opName(use.name), detail(d))
 
 				return
+			}
+			if r.Chance(1, 3) {
+				// other messages are built in the same program meanwhile (their buffers grow and are dropped): the
+				// attribute values of this one - also those still pointing into buffers it has outgrown - stay put
+				for k := 1 + r.Intn(3); k > 0; k-- {
+					o := new(stun.Message)
+					o.WriteHeader()
+					for j := 1 + r.Intn(6); j > 0; j-- {
+						o.Add(stun.AttrType(0x7b00+j), bytes.Repeat([]byte{0x83}, r.PickInt([]int{7, 33, 70, 120, 260, 600, 1500})))
+					}
+				}
+				if d := vm.diff(viewOf(m)); d != "" {
+					c.Violate("reuse-differs", "changed-by-unrelated-messages", detail("the message changed while other, unrelated messages were being built: "+d))
+
+					return
+				}
+				c.Count("bystander_rounds", 1)
 			}
 			// the data handed in was copied: overwrite it and look again
 			use.scribble()
